@@ -396,8 +396,7 @@ pub fn run(tier: Tier, seed: u64) -> i32 {
         let ri = r as i16;
         let f = FixedPointI8::new_raw(ri);
         let trunc = (ri / 256) as i8;
-        let floor = ri.div_euclid(256) as i8;
-        if f.raw_value() != ri || (f.value() != trunc && f.value() != floor) {
+        if f.raw_value() != ri || f.value() != trunc {
             rep.report(Violation::new("C16", "fixed_i8_raw", json!({"r": ri})).obs(json!([f.raw_value(), f.value()])));
         } else {
             fp_ok += 1;
